@@ -145,6 +145,12 @@ func (c *Ctx) writerModels() error {
 			return err
 		}
 	}
+	// the mechanism model refines the contract: every call it completes is judged by the contract's clauses
+	for _, cfg := range []string{"MC_WriterRefine_dyn.cfg", "MC_WriterRefine_huff.cfg"} {
+		if err := c.ModelCheck("WriterRefine", cfg, 5*time.Minute); err != nil {
+			return err
+		}
+	}
 	return nil
 }
 
